@@ -3,7 +3,7 @@ From Coq Require Import List ZArith.
 Import ListNotations.
 From Exmex.Model Require Import Base EvalBinary Lexer Flat Deep.
 From Exmex.Spec Require Import RefSem.
-From Exmex.Proofs Require Import Precond CommaRewrite LexSpaced LexFlex ParseComplete Damage.
+From Exmex.Proofs Require Import Precond CommaRewrite LexSpaced LexFlex LexLocal ParseComplete Damage.
 
 (* All statements are for EVERY operator table, data type and token list (not for a catalogue of damages).
    A token list is what the tokenizer hands to both parsers; the text-level statements for blank texts and
@@ -120,6 +120,20 @@ Example C07_adjacent_operands :
   exists e, parse_tokens_wo (D:=term) [] true [] [TNum (Lit [49%N]); TNum (Lit [50%N])] = Err e.
 Proof. vm_compute. eexists; reflexivity. Qed.
 
+(* ... and behind ANY locally readable prefix (Proofs/LexLocal.v: no terminator asked for, bare variable names, constants):
+   `2*x-sin(y)$`, `a+b#c` *)
+Theorem C07_unknown_char_behind_locally_readable_text : forall (D : Type) (C : carrier D) (tb : optable) (is_literal : str -> option nat)
+    (items : list (piece (D:=D) * nat)) (s : str),
+  all_readable C tb is_literal items s -> unknown_start tb is_literal s ->
+  tokenize C tb is_literal (ptexts C tb items ++ s) = Err E_TOKENIZE /\
+  (forall fb, is_err (parse_wo_compile C tb fb is_literal (ptexts C tb items ++ s))) /\
+  (forall fb, is_err (parse C tb fb is_literal (ptexts C tb items ++ s))) /\ is_err (parse_deep C tb is_literal (ptexts C tb items ++ s)).
+Proof.
+  intros D C tb is_literal items s HR Hs. pose proof (tokenize_local_unknown_char C tb is_literal items s HR Hs) as Ht. split; [exact Ht|].
+  split; [intros fb; unfold parse_wo_compile; rewrite Ht; exists E_TOKENIZE; reflexivity|].
+  split; [intros fb; unfold parse, parse_wo_compile; rewrite Ht; exists E_TOKENIZE; reflexivity|unfold parse_deep; rewrite Ht; exists E_TOKENIZE; reflexivity].
+Qed.
+
 Print Assumptions C07_unbalanced_rejected.
 Print Assumptions C07_trailing_operator_rejected.
 Print Assumptions C07_bad_pair_rejected.
@@ -132,3 +146,4 @@ Print Assumptions C07_tree_renderings_have_no_prefix_notation.
 Print Assumptions C07_blank_text.
 Print Assumptions C07_unknown_char.
 Print Assumptions C07_unknown_char_free_spacing.
+Print Assumptions C07_unknown_char_behind_locally_readable_text.
